@@ -7,6 +7,7 @@ import (
 	"fmt"
 	"go/token"
 	"go/types"
+	"os"
 	"sort"
 	"strings"
 
@@ -224,6 +225,18 @@ func (c *Ctx) indexDischarge(fn *ssa.Function, at ssa.Instruction, x, idx ssa.Va
 		}
 	}
 	lo, _ := c.lenFactsFor(x, atoms)
+	// in a lifted calling context the index may be a parameter of the helper: read the caller's argument
+	for i := 0; i < 4; i++ {
+		p, isParam := idx.(*ssa.Parameter)
+		if !isParam || c.ctxEnv == nil || c.ctxEnv.par == nil {
+			break
+		}
+		b, ok := c.ctxEnv.par[p]
+		if !ok {
+			break
+		}
+		idx = b
+	}
 	if n, ok := constIntVal(idx); ok {
 		if n >= 0 && lo > n {
 			return fmt.Sprintf("dominating fact len ≥ %d", lo), true
@@ -986,6 +999,9 @@ func (c *Ctx) liftDischarge(r *Report, site *panicSite, extra []panicDischarger,
 	}
 	sites, ok := c.privateHelper(site.fn)
 	if !ok {
+		if os.Getenv("LUCDBG") != "" {
+			fmt.Fprintln(os.Stderr, "liftDischarge: not a private helper:", fnName(site.fn))
+		}
 		return "", false
 	}
 	h := site.fn
@@ -1016,6 +1032,9 @@ func (c *Ctx) liftDischarge(r *Report, site *panicSite, extra []panicDischarger,
 		by, ok := c.tryDischarge(r, s2, atoms, extra)
 		if !ok {
 			by, ok = c.liftDischargeFrom(r, s2, cs, atoms, extra, depth+1)
+		}
+		if !ok && os.Getenv("LUCDBG") != "" {
+			fmt.Fprintln(os.Stderr, "liftDischarge: context", fnName(cs.Parent()), c.instrPos(cs), "key", s2.key, "atoms", atomsText(atoms))
 		}
 		c.ctxEnv = old
 		if !ok {
